@@ -82,6 +82,8 @@ func c08Alphabet() []c08Stmt {
 		{"error-under-closure-creating-calls", "g = mkc(12)", "", true},
 		{"function-bound-then-error", "{\n  sc = (x) -> x * 10 + 7\n  da()\n}", "sc = (x) -> x * 10 + 7", true},
 		{"closure-from-generator-kept-then-error", "for h <- cgen() {\n  kc = h\n  [1][5]\n}", "kc = mkhundred()", true},
+		{"output-then-error", "{\n  write(\"LEAK\")\n  1 / 0\n}", "write(\"LEAK\")", true},
+		{"output-in-loop-then-error", "for i <- fromto(0, 3) {\n  write(i)\n  if i == 1 u()\n}", "write(\"01\")", true},
 		{"stray-closer", "}", "", true},
 		{"stray-bracket", "g = 5 ]", "", true},
 	}
@@ -206,7 +208,7 @@ func init() {
 	core.Register(&core.Check{
 		ID:    "C08",
 		Level: "model_checking",
-		Rule: "explicit-state search over session histories: all sequences of length <= 2, and a third of those of length 3 (quick) / all of length <= 4 (thorough) over 31 statements (4 good ones; lexer, parser and unbalanced-input errors; every runtime error class at top level, at call depth 3, in a for / while body, in a generator suspended after a yield, in a nested generator, in the second iterator of a zip, in a closure call, after deep recursion, with partial global effects; in a loop body that stored a closure handed out by a suspended generator; a top-level return out of nested loops), each history followed by 14 observers (globals, calls, a summing loop, a generator composition, a zip over a failing generator, 300-deep recursion, an escaped closure, a further update). " +
+		Rule: "explicit-state search over session histories: all sequences of length <= 2, and a third of those of length 3 (quick) / all of length <= 4 (thorough) over 33 statements (4 good ones; lexer, parser and unbalanced-input errors; every runtime error class at top level, at call depth 3, in a for / while body, in a generator suspended after a yield, in a nested generator, in the second iterator of a zip, in a closure call, after deep recursion, with partial global effects; after writing output; in a loop body that stored a closure handed out by a suspended generator; a top-level return out of nested loops), each history followed by 14 observers (globals, calls, a summing loop, a generator composition, a zip over a failing generator, 300-deep recursion, an escaped closure, a further update). " +
 			"Every history is replayed on a fresh real VM; oracle per transition: value/output/error of every statement equal the reference model's; through the hooks the machine is at rest after every statement (sp 0, no frames, no closure frames, no live contexts, ip at end of code); the observers answer exactly as in the failure-free twin session that performs only the documented global effects. states = distinct (reference global store, machine state) after a history; transitions = history extensions executed",
 		Assumptions: []string{"states are reported for coverage only; no pruning is done at these depths, every history is executed in full", "stdin is /dev/null, so read() is the read error case"},
 		Exec: func(payload string) (string, string) {
